@@ -346,6 +346,33 @@ def controller_scale(cx, cls="rk45", reverse=False, atol=1.0, rtol=0.5):
     return "%d attempts, %s" % (len(att), "accepted" if accepted else "rejected")
 
 
+def tableau_state(cx, cls="rk45"):
+    """the embedded pair is the stated one for EVERY call: a solve in another precision (float32) must not change the tableau
+    that later float64 solves use (class-level state), and a float64 solve after it must give the result of a fresh one"""
+    solver_cls = {"rk45": ark.RK45, "rk23": ark.RK23}[cls]
+    before = {nm: getattr(solver_cls, nm).clone() for nm in "ABCE"}
+    y0 = cx.sym("y0", (1,))
+    ts64 = cx.const(torch.tensor([0.0, 0.25], dtype=torch.float64))
+    f = lambda t, y: -0.5 * y + t
+    orig = solver_cls._error_norm
+    solver_cls._error_norm = lambda self, K, h: h * 0 + 0.5      # every step accepted (the controller is checked elsewhere)
+    try:
+        with torch.no_grad():
+            first = solve_ivp(f, ts64, y0, method=cls, atol=1.0, rtol=0.0)
+            ts32 = torch.tensor([0.0, 0.25], dtype=torch.float32)
+            solve_ivp(lambda t, y: -y, ts32, torch.tensor([1.0], dtype=torch.float32), method=cls, atol=1.0, rtol=0.0)
+            again = solve_ivp(f, ts64, y0, method=cls, atol=1.0, rtol=0.0)
+    finally:
+        solver_cls._error_norm = orig
+    for nm in "ABCE":
+        now = getattr(solver_cls, nm)
+        cx.claim_true("class tableau %s is unchanged (dtype and values) after a float32 solve" % nm,
+                      now.dtype == before[nm].dtype and bool(torch.equal(now, before[nm])), detail="%s" % now.dtype)
+    cx.claim_eq("the float64 solve after a float32 one equals the one before it", again, first, tol=1e-13)
+    cx.claim_true("result dtype", again.dtype == torch.float64)
+    return "ok"
+
+
 def tuple_state(cx, method="rk4"):
     """a list-of-tensors state gives the same result as the concatenated tensor state"""
     A = cx.sym("A", (2, 2))
@@ -396,6 +423,8 @@ def configs(tier):
     for cls in ("rk45", "rk23"):
         add("controller_scale/%s/increasing" % cls, controller_scale, cls=cls, opts={"max_paths": 60, "budget_s": 200})
     add("controller_scale/rk45/decreasing", controller_scale, cls="rk45", reverse=True, opts={"max_paths": 60, "budget_s": 200})
+    add("tableau_state/rk45", tableau_state, cls="rk45")
+    add("tableau_state/rk23", tableau_state, cls="rk23")
     add("tuple_state/rk4", tuple_state, method="rk4")
     add("tuple_state/euler", tuple_state, method="euler")
     if tier == "thorough":
